@@ -38,6 +38,7 @@ import (
 	"github.com/ethereum/go-ethereum/crypto"
 	"github.com/ethereum/go-ethereum/ethdb"
 	"github.com/ethereum/go-ethereum/ethdb/memorydb"
+	"github.com/ethereum/go-ethereum/ethdb/pebble"
 	"github.com/ethereum/go-ethereum/rlp"
 )
 
@@ -113,7 +114,7 @@ func build(bs []*blk) {
 }
 
 // writeBlock performs the rawdb.Write* calls for one block (block order = case order).
-func writeBlock(db ethdb.KeyValueStore, b *blk) {
+func writeBlock(db ethdb.KeyValueWriter, b *blk) {
 	if b.flags&fCanon != 0 {
 		rawdb.WriteCanonicalHash(db, b.hash, b.num)
 	}
@@ -497,6 +498,11 @@ func decodeCase(c Sx) (bs []*blk, evs []SL) {
 }
 
 func run(c Sx) Result {
+	if top := AsList(c); len(top) > 0 {
+		if k, ok := top[0].(SI); ok && k.V.Int64() == 7 {
+			return runBig(top)
+		}
+	}
 	bs, evs := decodeCase(c)
 	build(bs)
 	var roots []string
@@ -776,6 +782,191 @@ done:
 	return Result{Obs: obs, Oracle: oracle, Tags: tl, NonTrivial: frozeAny && last.frozen > 1}
 }
 
+// ---------------------------------------------------------------- large-scale stream
+
+// freezerBatchLimit of core/rawdb/chain_freezer.go (a constant of the implementation);
+// the Coq model runs the same scenario with the limit 64 and both sides report block
+// numbers relative to the limit (see coq/Run/C25.v, kind 7).
+const bigL = 30000
+
+func bigWindow(q, f, h uint64) []uint64 {
+	var w []uint64
+	for m := uint64(0); m <= q; m++ {
+		if m == 0 {
+			w = append(w, 0, 1, 2)
+		} else {
+			w = append(w, m*bigL-2, m*bigL-1, m*bigL, m*bigL+1, m*bigL+2)
+		}
+	}
+	return append(w, f-1, f, f+1, f+2, h-1, h)
+}
+
+func runBig(top SL) Result {
+	if len(top) != 6 {
+		panic("hxlib: big case shape")
+	}
+	q, r, a, cycles := AsU64(top[1]), AsU64(top[2]), AsU64(top[3]), AsInt(top[4])
+	if q < 1 || q > 3 || r+a >= 40 || a < 3 || cycles < 0 || cycles > 6 {
+		return Result{Obs: SL{I(-1), I(2)}}
+	}
+	f := q*bigL + r - 1
+	h := f + a
+	var bs []*blk
+	for n := uint64(0); n <= h; n++ {
+		bs = append(bs, &blk{num: n, parentIdx: int(n) - 1, seed: n + 1, flags: fCanon})
+	}
+	nCanon := len(bs)
+	for i, x := range AsList(top[5]) {
+		sp := AsList(x)
+		if len(sp) != 3 {
+			panic("hxlib: big case shape")
+		}
+		p := int64(AsU64(sp[0]))*bigL + AsBig(sp[1]).Int64()
+		if p < 0 || p > int64(h) {
+			panic("hxlib: big case shape")
+		}
+		par := int(p)
+		for j := 0; j < AsInt(sp[2])%8; j++ {
+			bs = append(bs, &blk{num: uint64(p) + 1 + uint64(j), parentIdx: par, seed: 1<<40 + uint64(i)*1000 + uint64(j)})
+			par = len(bs) - 1
+		}
+	}
+	build(bs)
+	// pebble, not memorydb: the freeze loop calls ReadAllHashes once per height and a
+	// memorydb iterator copies and sorts the whole store each time
+	kvdir := tmpRoot()
+	defer os.RemoveAll(kvdir)
+	inner, err := pebble.New(kvdir, 64, 64, "", false)
+	if err != nil {
+		panic("hxlib: cannot open pebble: " + err.Error())
+	}
+	defer inner.Close()
+	root := tmpRoot()
+	defer os.RemoveAll(root)
+	in, err := open(inner, root)
+	if err != nil {
+		return Result{Obs: SL{I(-3)}, Oracle: "initial open failed: " + err.Error()}
+	}
+	defer in.kill()
+	wb := inner.NewBatch()
+	for _, b := range bs {
+		writeBlock(wb, b)
+		if wb.ValueSize() > 1<<20 {
+			wb.Write()
+			wb.Reset()
+		}
+	}
+	wb.Write()
+	rawdb.WriteHeadBlockHash(inner, bs[h].hash)
+	rawdb.WriteHeadHeaderHash(inner, bs[h].hash)
+	rawdb.WriteFinalizedBlockHash(inner, bs[f].hash)
+
+	var oracle string
+	fail := func(f string, a ...interface{}) {
+		if oracle == "" {
+			oracle = fmt.Sprintf(f, a...)
+		}
+	}
+	ref := make([]string, len(bs))
+	for i, b := range bs {
+		ref[i] = String(readView(in.db, b))
+	}
+	nf := rawdb.NewDatabase(inner) // key-value store only
+	win := bigWindow(q, f, h)
+	var obs SL
+	prevFrozen := uint64(0)
+	for c := 0; c < cycles; c++ {
+		reached, appendErr := false, false
+		in.runCycle(func(g string) bool {
+			if g == "appenderr" {
+				appendErr = true
+			} else {
+				reached = true
+			}
+			return false
+		})
+		cls := int64(1)
+		if reached {
+			cls = 0
+		} else if appendErr {
+			cls = 10
+		}
+		frozen, _ := in.db.Ancients()
+		// every block is re-read after a cycle that did something; after a no-op cycle only
+		// the window, the side blocks and a sample are
+		inWin := map[uint64]bool{}
+		for _, w := range bigWindow(q, f, h) {
+			inWin[w] = true
+		}
+		same := make([]bool, len(bs))
+		for i, b := range bs {
+			if reached || i >= nCanon || inWin[b.num] || i%97 == 0 {
+				same[i] = String(readView(in.db, b)) == ref[i]
+			} else {
+				same[i] = true
+			}
+		}
+		// ---- the property, checked directly
+		thr := f
+		want := prevFrozen
+		if prevFrozen == 0 || prevFrozen-1 < thr {
+			want = thr + 1
+			if want-prevFrozen > bigL {
+				want = prevFrozen + bigL
+			}
+		}
+		if frozen != want {
+			fail("Ancients() = %d after cycle %d, want min(threshold+1, first+limit) = %d", frozen, c+1, want)
+		}
+		for i := 0; i < nCanon; i++ {
+			if !same[i] {
+				fail("accessors of canonical block #%d changed by freeze cycle %d (frozen %d, threshold %d): before %s now %s", bs[i].num, c+1, frozen, thr, ref[i], String(readView(in.db, bs[i])))
+				break
+			}
+		}
+		for n := uint64(0); n < frozen && n <= h; n += 1 + frozen/64 {
+			hh, err := in.db.Ancient(rawdb.ChainFreezerHashTable, n)
+			if err != nil || !bytes.Equal(hh, bs[n].hash[:]) {
+				fail("frozen item %d is not the canonical block after cycle %d", n, c+1)
+			}
+		}
+		for i := nCanon; i < len(bs); i++ {
+			b := bs[i]
+			if b.num < frozen && len(rawdb.ReadHeaderRLP(nf, b.hash, b.num)) != 0 {
+				fail("side block at height %d left in the key-value store below the frozen boundary %d after cycle %d", b.num, frozen, c+1)
+			}
+			if String(readView(in.db, b)) != ref[i] && rawdb.HasHeader(in.db, b.hash, b.num) {
+				fail("side block at height %d altered by freeze cycle %d", b.num, c+1)
+			}
+		}
+		for n := uint64(1); n < frozen; n++ {
+			if c == cycles-1 || n+4 > frozen || n < 4 {
+				if hs := rawdb.ReadAllHashes(inner, n); len(hs) != 0 {
+					fail("block data left in the key-value store below the frozen boundary at height %d after cycle %d", n, c+1)
+					break
+				}
+			}
+		}
+		prevFrozen = frozen
+		// ---- the summary compared with the model
+		var ws, ss SL
+		for _, w := range win {
+			ws = append(ws, SL{Bool(len(rawdb.ReadHeaderRLP(nf, bs[w].hash, w)) != 0), Bool(w < frozen), Bool(same[w])})
+		}
+		for i := nCanon; i < len(bs); i++ {
+			b := bs[i]
+			_, okn := rawdb.ReadHeaderNumber(nf, b.hash)
+			ss = append(ss, SL{Bool(len(rawdb.ReadHeaderRLP(nf, b.hash, b.num)) != 0), Bool(len(rawdb.ReadBodyRLP(nf, b.hash, b.num)) != 0),
+				Bool(len(rawdb.ReadReceiptsRLP(nf, b.hash, b.num)) != 0), Bool(okn)})
+		}
+		obs = append(obs, SL{I(cls), U(frozen / bigL), U(frozen % bigL), ws, ss})
+	}
+	if cycles >= 2 && oracle == "" && prevFrozen != f+1 && uint64(cycles)*bigL >= f+1 {
+		fail("the freezer did not resume: %d frozen after %d cycles, threshold %d", prevFrozen, cycles, f)
+	}
+	return Result{Obs: obs, Oracle: oracle, Tags: []string{"big", fmt.Sprintf("big-q%d-r%d", q, min(int(r), 9))}, NonTrivial: prevFrozen > bigL}
+}
+
 // ---------------------------------------------------------------- generation
 
 func emitCase(bs []*blk, evs []Sx, emit func(Sx)) {
@@ -822,6 +1013,23 @@ func gen(r *Rng, tier string, emit func(Sx)) {
 	n := 110
 	if tier == "thorough" {
 		n = 1500
+	}
+	// the large-scale stream: a cycle capped by the real freezerBatchLimit
+	bigCase := func(q, rr, a, cycles int) {
+		sides := SL{
+			SL{I(0), I(int64(r.Intn(3))), I(int64(r.Range(1, 3)))},                         // near genesis
+			SL{I(int64(r.Range(1, q))), I(int64(-3 + r.Intn(3))), I(int64(r.Range(1, 2)))}, // just below a cap boundary
+			SL{I(int64(r.Range(1, q))), I(int64(-2 + r.Intn(2))), I(int64(r.Range(3, 5)))}, // straddling a cap boundary
+			SL{I(int64(q)), I(int64(r.Intn(3))), I(int64(r.Range(1, 3)))},                  // between the boundary and the threshold
+		}
+		emit(SL{I(7), I(int64(q)), I(int64(rr)), I(int64(a)), I(int64(cycles)), sides})
+	}
+	bigCase(1, r.Range(1, 8), r.Range(3, 10), 2)
+	if tier == "thorough" {
+		bigCase(1, 0, r.Range(3, 10), 2) // exactly the cap: not capped
+		bigCase(1, 1, r.Range(3, 10), 3) // cap + 1
+		bigCase(1, r.Range(9, 25), 4, 3)
+		bigCase(2, 5, r.Range(3, 10), 4) // 2*cap + 5: two capped cycles
 	}
 	seedCtr := uint64(1)
 	for ci := 0; ci < n; ci++ {
